@@ -35,6 +35,7 @@ import heapq
 import json
 import os
 import socket
+import weakref
 from types import SimpleNamespace
 from unittest import mock
 
@@ -50,6 +51,7 @@ from aiomysensors.gateway import Config, Gateway  # noqa: E402
 from aiomysensors.model.node import Node, NodeSchema  # noqa: E402
 from aiomysensors.persistence import Persistence  # noqa: E402
 from aiomysensors.transport import Transport  # noqa: E402
+import aiomysensors.transport.serial as serial_mod  # noqa: E402
 from aiomysensors.transport.serial import SerialTransport  # noqa: E402
 from aiomysensors.transport.tcp import TCPTransport  # noqa: E402
 
@@ -802,19 +804,45 @@ def cadence_schedule(stretches: list[int], interval: int) -> list[list[str]]:
 
 
 class LoopbackSerial(SerialTransport):
-    """SerialTransport with the serial port replaced by an in-memory socket pair."""
+    """SerialTransport with the serial port replaced by an in-memory socket pair.  The replacement happens at the seam
+    the library's own tests use — the module-level `open_serial_connection` of transport/serial.py — and not in a
+    private hook of the class: every instance has its own port name, and `_loopback_open` (installed below in place of
+    `serial_mod.open_serial_connection`) opens the socket pair of the instance the port name belongs to."""
 
-    def __init__(self, fail: bool) -> None:
-        super().__init__("/dev/null-verif")
+    instances = weakref.WeakValueDictionary()     # port name -> live instance
+    created = 0
+
+    def __init__(self, fail: bool, on_open=None) -> None:
+        port = f"/dev/null-verif{LoopbackSerial.created or ''}"
+        LoopbackSerial.created += 1
+        super().__init__(port)
+        LoopbackSerial.instances[port] = self
         self._fail = fail
+        self._on_open = on_open
         self.peer = None
 
-    async def _open_connection(self):
+    async def _loopback(self):
         if self._fail:
             raise OSError(2, "could not open port /dev/null-verif")
         a, b = socket.socketpair()
         self.peer = b
+        if self._on_open is not None:
+            self._on_open(b)
         return await asyncio.open_connection(sock=a)
+
+
+_real_open_serial_connection = serial_mod.open_serial_connection
+
+
+async def _loopback_open(*args, **kwargs):
+    url = kwargs.get("url", args[0] if args else None)
+    inst = LoopbackSerial.instances.get(url)
+    if inst is None:
+        return await _real_open_serial_connection(*args, **kwargs)
+    return await inst._loopback()  # noqa: SLF001
+
+
+serial_mod.open_serial_connection = _loopback_open     # the harness process only
 
 
 class FakeMqttMessages:
@@ -1095,12 +1123,7 @@ class Wire:
         elif kind == "serial":
             wire = self
 
-            class Serial(LoopbackSerial):
-                async def _open_connection(self):
-                    result = await super()._open_connection()
-                    wire.peers.append(self.peer)
-                    return result
-            self.transport = Serial(False)
+            self.transport = LoopbackSerial(False, on_open=wire.peers.append)
         elif kind == "mqtt-client":
             FakeMqttClient.fail_connect = False
             FakeMqttClient.fail_subscribe_at = None
